@@ -261,8 +261,8 @@ def _c17_retyped(sub: dict, params: dict) -> bool:
 
 @predicate("c13_add_mark_over_inline_container")
 def _c13_container(sub: dict, params: dict) -> bool:
-    """add_mark over a range that contains (wholly) an inline node which has content of its own and is not an atom,
-    in a parent that allows the mark."""
+    """add_mark over a range that contains or cuts into an inline node which has content of its own and is not an
+    atom, in a parent that allows the mark."""
     if sub.get("mode") != "c13" or sub.get("op", {}).get("op") != "add_mark":
         return False
     from .gen import schemas
@@ -273,6 +273,8 @@ def _c13_container(sub: dict, params: dict) -> bool:
     for k, s_, par, _i, _d in RR.all_nodes(RR.N(sub["doc"], rs)):
         if k.is_text or rs.leaf[k.t] or not rs.inline[k.t] or rs.nodes[k.t].get("atom"):
             continue
-        if op["from"] <= s_ and s_ + k.size <= op["to"] and par is not None and rs.allows_mark(par.t, op["mark"][0]):
+        # covered by the range, or cut by it (the statement leaves open whether a node the range only cuts into is
+        # inside; read as inside, it is the same finding)
+        if s_ < op["to"] and s_ + k.size > op["from"] and par is not None and rs.allows_mark(par.t, op["mark"][0]):
             return True
     return False
